@@ -11,6 +11,7 @@ import (
 	"math/big"
 	"os"
 	"sort"
+	"strconv"
 	"strings"
 
 	"golang.org/x/tools/go/packages"
@@ -1428,6 +1429,32 @@ func (x *Exec) bindResult(st *State, fr *Frame, instr ssa.Instruction, res []Val
 	}
 }
 
+// panicNilPossible: can recover() return nil although a panic is in flight? Before Go 1.21 `panic(nil)` (and a
+// panic with a nil interface value) made recover() return nil, so every `if r := recover(); r != nil` guard missed
+// it; from the language version go1.21 on the runtime substitutes a *runtime.PanicNilError. The language version
+// is the `go` line of the module of the function under verification (which is also a lower bound for every
+// module that imports it).
+func (x *Exec) panicNilPossible() bool {
+	if x.root == nil || x.root.Pkg == nil || x.root.Pkg.Pkg == nil {
+		return true
+	}
+	v := strings.TrimPrefix(x.root.Pkg.Pkg.GoVersion(), "go")
+	parts := strings.SplitN(v, ".", 3)
+	if len(parts) < 2 {
+		return true
+	}
+	maj, err1 := strconv.Atoi(parts[0])
+	min, err2 := strconv.Atoi(parts[1])
+	if err1 != nil || err2 != nil {
+		return true
+	}
+	possible := maj < 1 || (maj == 1 && min < 21)
+	if possible {
+		x.sym.note("language version " + x.root.Pkg.Pkg.GoVersion() + " (< go1.21): recover() may return nil while a panic is in flight (panic(nil))")
+	}
+	return possible
+}
+
 func (x *Exec) startPanic(st *State, fr *Frame, val Value) {
 	fr.panicking = true
 	fr.panicVal = val
@@ -1841,10 +1868,13 @@ func (x *Exec) opaqueCall(st *State, fr *Frame, resInstr ssa.Instruction, name s
 		ofr := other.top()
 		pev := *ev
 		pev.Panicked = true
+		pv := x.freshValue(other, "panicval", types.NewInterfaceType(nil, nil))
+		pev.PanicVal = pv
 		other.events = append(other.events, &pev)
 		other.trail = append(other.trail, "panic in "+name)
-		pv := x.freshValue(other, "panicval", types.NewInterfaceType(nil, nil))
-		other.assume(not(eq(pv.(IfaceV).Tag, intLit(0))))
+		if !x.panicNilPossible() {
+			other.assume(not(eq(pv.(IfaceV).Tag, intLit(0))))
+		}
 		x.havocFor(other, ofr, name)
 		x.startPanic(other, ofr, pv)
 		forks = append(forks, other)
@@ -1968,6 +1998,8 @@ func (x *Exec) callContract(st *State, fr *Frame, resInstr ssa.Instruction, fn *
 		ofr := other.top()
 		pev := *ev
 		pev.Panicked = true
+		pv := x.freshValue(other, "panicval", types.NewInterfaceType(nil, nil))
+		pev.PanicVal = pv
 		other.events = append(other.events, &pev)
 		other.trail = append(other.trail, "panic in "+rn)
 		osc := &specCtx{x: x, st: other, vars: vars, pkg: fnPkg(fn), fn: fn, heap: other.heap, lets: sc.lets, old: pre, panicking: true, letExprs: letMap(c), addrVars: addrVars, noGhost: true}
@@ -1976,8 +2008,9 @@ func (x *Exec) callContract(st *State, fr *Frame, resInstr ssa.Instruction, fn *
 		for _, e := range c.PanicEnsures {
 			other.assume(x.evalBool(osc, e.Expr))
 		}
-		pv := x.freshValue(other, "panicval", types.NewInterfaceType(nil, nil))
-		other.assume(not(eq(pv.(IfaceV).Tag, intLit(0))))
+		if !x.panicNilPossible() {
+			other.assume(not(eq(pv.(IfaceV).Tag, intLit(0))))
+		}
 		x.startPanic(other, ofr, pv)
 		forks = append(forks, other)
 	}
